@@ -316,6 +316,9 @@ func (r *Run) jobMain(j *JobRec) int {
 			if vos.WriteFile(cp, []byte(cc), 0644) == nil {
 				j.check()
 				r.Files[cp] = &FileRec{Path: cp, Content: cc, Job: j, Seq: vos.NextSeq(), Extra: true}
+				if logical != "" {
+					r.Files[cp].Logical = path.Join(logical, fname+".idx")
+				}
 				r.Faults["stage-output-with-companion-file"]++
 			}
 		}
